@@ -4,6 +4,8 @@ CONSTANTS
   CounterIsStatic = FALSE
   TypeIdByFirstUse = FALSE
   AddressInOutput = FALSE
+  ObjectHashIsAddress = FALSE
+  ExtBufferIsStatic = FALSE
   DefinesPersist = FALSE
   MaxP = 2
   MaxQ = 2
